@@ -302,18 +302,17 @@ def check_C06(tier):
         rep.add(cfg, obs)
     tcl = ["default"] if tier == "quick" else E4_CONFIGS
     jobs = [{"config": c, "mode": "dbg", "model": "valid", "kind": "fn", "target": d, "post": "truncation"}
-            for c in tcl for d in ("minimal_lexical::parse::parse_number", "minimal_lexical::parse::parse_number_fast")]
+            for c in tcl for d in ("minimal_lexical::parse::parse_number", "minimal_lexical::parse::parse_number_fast", "minimal_lexical::slow::parse_mantissa")]
     results = run_jobs(jobs)
     tfx = F.build_many([(c, "dbg") for c in tcl])
-    _e4_report(rep, "C06", results, lambda j: "%s typestate" % j["config"], {"%s typestate" % c: tfx[(c, "dbg")] for c in tcl}, floor_per_group=2)
-    rep.note("the same typestate for slow::parse_mantissa (stops early only with count >= max_digits) is NOT claimed: the engine merges its exit "
-             "states inside the macro-expanded loops and loses the count/max_digits relation")
+    _e4_report(rep, "C06", results, lambda j: "%s typestate" % j["config"], {"%s typestate" % c: tfx[(c, "dbg")] for c in tcl}, floor_per_group=3)
     rep.analysed = {"configurations": cl, "longest_midpoint_digits": need, "typestate_entry_points": sorted(set(j["target"] for j in jobs))}
     rep.note("NOT decided: rounding of the truncated value. Decided: MAX_DIGITS is at least the longest exact decimal expansion of any midpoint between adjacent floats (computed by big-integer enumeration over all binades), and retaining that many digits fits the big-integer capacity")
     return rep.finish(
         "other",
         "(Typestate, E4) at every exit of parse_number either many_digits is set or both input iterators are exhausted; parse_number_fast returns "
-        "Some only with both exhausted: a digit can be left unread by the 19-digit stage only if the result says so. "
+        "Some only with both exhausted: a digit can be left unread by the 19-digit stage only if the result says so; at every exit of "
+        "slow::parse_mantissa either both iterators are exhausted or the returned digit count has reached max_digits. "
         "Necessary condition of long-input rounding: MAX_DIGITS >= D_mid(F), where D_mid is computed exactly (768 for f64, 113 for f32 on IEEE parameters "
         "taken from the compiler); with fewer retained digits an exact tie is replaced by prefix||1 < tie and rounds the wrong way. Plus the capacity "
         "formula of DESIGN appendix B evaluated on the extracted constants.",
